@@ -22,7 +22,7 @@ import (
 func init() {
 	for _, id := range []string{"C03", "C07"} {
 		id := id
-		rule := "case = one generated history on one table (id INT, k INT, v VARCHAR) whose columns carry a generated mix of index kinds (SQL-created: skip list on every column; API-created: skip list / unique skip list / B-tree on id, none / skip list / B-tree / hash on k, none / skip list / B-tree on v): " +
+		rule := "case = one generated history on one table - every third case on two tables written by the same transactions, every sixth case driven by 3-6 client goroutines on disjoint rows and audited once at the end - (id INT, k INT, v VARCHAR) whose columns carry a generated mix of index kinds (SQL-created: skip list on every column; API-created: skip list / unique skip list / B-tree on id, none / skip list / B-tree / hash on k, none / skip list / B-tree on v): " +
 			"multi-statement transactions of single/multi-row INSERT, in-place / growing / shrinking (relocating) / key-changing UPDATE (none on hash-indexed tables), DELETE, repeated changes of one row, ended by commit, explicit abort or a conflict abort provoked through a second open transaction; " +
 			"at EVERY quiescent point (no transaction open): plan-level heap scan vs committed-state model; every index vs the heap - point lookup of every present and every formerly present key, full range scan and random intervals (each in-range row once, in key order); index-path SQL point queries vs the model. "
 		if id == "C03" {
@@ -92,7 +92,16 @@ func idxHistCase(env *core.Env, idx int, prop string) *core.CaseResult {
 	}
 	p.NoUpdate = anyHash
 	p.Tables = tds
-	p.File = prop == "C07" && idx%2 == 0
+	// every sixth history is driven by 3-6 client goroutines on disjoint rows (index maintenance, aborts and node splits
+	// of different transactions interleave inside the index containers); audited once, when all clients have finished
+	conc := idx%6 == 5
+	if conc {
+		p.Clients = 3 + r.Intn(4)
+		p.MemKB = []int{256, 512, 1024}[r.Intn(3)]
+		p.Steps = p.Steps * 3
+		p.ThinkTime = []time.Duration{0, 100 * time.Microsecond}[r.Intn(2)]
+	}
+	p.File = prop == "C07" && idx%2 == 0 && !conc
 	p.CleanShutdown = p.File && idx%4 == 0
 	kindSet := map[string]bool{}
 	for _, t := range tds {
@@ -111,6 +120,9 @@ func idxHistCase(env *core.Env, idx int, prop string) *core.CaseResult {
 	if nT > 1 {
 		kindTags = append(kindTags, "two-tables")
 	}
+	if idx%6 == 5 {
+		kindTags = append(kindTags, "concurrent-clients")
+	}
 	sort.Strings(kindTags)
 	prev := map[string]*idxSnap{}
 	nPoint := 0
@@ -128,10 +140,17 @@ func idxHistCase(env *core.Env, idx int, prop string) *core.CaseResult {
 		}
 		return map[string]any{"seed": env.Seed, "idx": idx, "table": tds, "memKB": p.MemKB, "window": w, "quiescent_point": nPoint}
 	}
+	var sparseIDs []int32
 	audit := func(db *sqlx.DB, td crashlab.TableDef, model []rm.Row, maxID int32, where string, windowTags []string, d map[string]any, hadAbort, lone bool) (*idxSnap, bool) {
 		extra := map[int][]rm.Cell{}
-		for id := int32(1); id <= maxID; id++ {
-			extra[0] = append(extra[0], rm.Int(id))
+		if sparseIDs != nil {
+			for _, id := range sparseIDs {
+				extra[0] = append(extra[0], rm.Int(id))
+			}
+		} else {
+			for id := int32(1); id <= maxID; id++ {
+				extra[0] = append(extra[0], rm.Int(id))
+			}
 		}
 		for k := int32(0); k < 50; k += 7 {
 			extra[1] = append(extra[1], rm.Int(k))
@@ -207,6 +226,7 @@ func idxHistCase(env *core.Env, idx int, prop string) *core.CaseResult {
 	p.OnQuiescent = func(q *crashlab.Quiescent) bool {
 		nPoint++
 		lastQ = q
+		sparseIDs = q.IDs
 		hadAbort, relocOrKey := false, false
 		for _, t := range q.Ended {
 			if t.AbortRet >= 0 {
@@ -279,7 +299,14 @@ func idxHistCase(env *core.Env, idx int, prop string) *core.CaseResult {
 	}
 	path := fmt.Sprintf("%s/ih_%d", env.TmpDir, idx)
 	sqlx.RemoveFiles(path)
-	h, fatal := crashlab.Run(r, path, p)
+	var h *crashlab.History
+	var fatal string
+	if conc {
+		h, fatal = crashlab.RunConcurrent(r, path, p)
+		res.Add("concurrent_histories", 1)
+	} else {
+		h, fatal = crashlab.Run(r, path, p)
+	}
 	for k, v := range h.Stats {
 		res.Add("history_"+k, v)
 	}
